@@ -161,6 +161,28 @@ def _parse_tlc(out: str, res: TLCResult):
             i = j
             continue
         i += 1
+    # an invariant that could not be EVALUATED in some state (e.g. a recorded value of a shape the specification does
+    # not admit): kept apart; table validation turns it into a rejected row
+    res.evalfail = []
+    for k, ln in enumerate(lines):
+        em = re.match(r"^Error: Evaluating invariant (\S+) failed", ln)
+        if em:
+            reason = " ".join(x.strip() for x in lines[k + 1:k + 4])[:300]
+            trace, cur = [], None
+            for l2 in lines[k + 1:]:
+                if re.match(r"^\d+ states generated", l2) or l2.startswith("Finished"):
+                    break
+                sm2 = _STATE_RE.match(l2)
+                if sm2:
+                    cur = [l2]
+                    trace.append(cur)
+                elif cur is not None:
+                    if l2.strip() == "":
+                        cur = None
+                    else:
+                        cur.append(l2)
+            res.evalfail.append({"kind": "invariant", "name": em.group(1) + " (not evaluable: " + reason + ")",
+                                 "trace": ["\n".join(s_) for s_ in trace]})
     # generic errors that are not property violations
     for ln in lines:
         if ln.startswith("Error: ") and not any(
@@ -225,7 +247,7 @@ class Ctx:
             workers: int | None = None, simulate: str | None = None, depth: int | None = None,
             timeout: int = 3600, coverage: bool = False, cont: bool = False,
             name: str | None = None, java_opts: str = "-Xss64m", seed: int | None = None,
-            deadlock: bool = False, quiet: bool = False) -> TLCResult:
+            deadlock: bool = False, quiet: bool = False, eval_as_violation: bool = False) -> TLCResult:
         """Run TLC on /verif/spec/<module>.tla with the given cfg text.
 
         `extra` maps file names to contents written next to the cfg (generated MC_* modules,
@@ -267,6 +289,11 @@ class Ctx:
         _parse_tlc(res.out, res)
         (d / "tlc.out").write_text(res.out)
         res.dir = d
+        if eval_as_violation and res.evalfail:
+            # the table row cannot be evaluated by its specification: a rejected row, not a failure of the machinery
+            res.violations += res.evalfail
+            res.error = "".join(ln + "\n" for ln in (res.error or "").splitlines()
+                                if not ln.startswith("Error: Evaluating invariant")) or None
         self.states += res.distinct
         self.transitions += res.generated
         self.models.append({"model": name, "distinct": res.distinct, "generated": res.generated,
